@@ -40,6 +40,9 @@ pub const STREAMS: &[(&str, usize, usize)] = &[
     ("fuel-ops", 400, 4000),
     // minimised witnesses of defects that were found and fixed (corpus/C04/regress-*.gom) + their template families
     ("regress", 60, 300),
+    // infinite types: every way an occurs-check failure can arise × every way two inference variables
+    // can have been unified with each other before (enumerated, then random compositions)
+    ("occurs", 900, 6000),
     // features with known findings: kept out of the streams above so they cannot mask anything
     ("known-polyrec", 6, 12),
     ("known-artifact-core-ir", 200, 3000),
@@ -223,6 +226,100 @@ fn mutate_swap(src: &str, r: &mut Rng) -> String {
         s = format!("{}{}{}", &s[..a], with, &s[e..]);
     }
     s
+}
+
+/// One ill-typed program whose only defect is an infinite type. `a`, `b`, `c` are un-annotated
+/// closure parameters (fresh inference variables). First `alias` unifies two of them while both
+/// are unbound (or not at all), then `knot` equates one with a type that contains the other.
+/// idx < ALIASES × KNOTS × 4 enumerates the whole table (× which side is applied × operand
+/// order); larger indices compose two aliases and wrap the knot in random context.
+pub fn occurs_case(idx: usize, r: &mut Rng) -> (String, String) {
+    // ways to unify the types of X and Y (statement form; may define K of the same type)
+    const ALIASES: [(&str, &str); 16] = [
+        ("same-variable", "let K = X;"),
+        ("array-literal", "let _ = [X, Y]; let K = Y;"),
+        ("if-join", "let K = if true { X } else { Y };"),
+        ("match-arms", "let K = match 1 { 0 => X, _ => Y, };"),
+        ("generic-fn-same", "let K = same(X, Y);"),
+        ("ref-set", "let q = ref(X); let _ = ref_set(q, Y); let K = ref_get(q);"),
+        ("vec-push", "let q = vec_push(vec_push(vec_new(), X), Y); let K = vec_get(q, 0);"),
+        ("closure-call", "let j = |m, n| [m, n]; let _ = j(X, Y); let K = Y;"),
+        ("generic-struct", "let q = Two { l: X, r: Y }; let K = q.r;"),
+        ("through-third", "let _ = [X, c]; let _ = [c, Y]; let K = c;"),
+        ("equality", "let _ = X == Y; let K = Y;"),
+        ("tuple-of-arrays", "let _ = ([X, Y], 1); let K = Y;"),
+        ("nested-if", "let K = if true { if false { X } else { Y } } else { X };"),
+        ("enum-payload", "let q = [Som(X), Som(Y)]; let K = Y;"),
+        ("array-set", "let q = array_set([X], 0, Y); let K = array_get(q, 0);"),
+        ("let-tuple-pattern", "let (u, w) = (X, Y); let _ = [u, w]; let K = w;"),
+    ];
+    // ways to make `P ~ type containing Q`
+    const KNOTS: [(&str, &str); 14] = [
+        ("apply", "P(Q)"),
+        ("apply-result", "[P, P(Q)]"),
+        ("array-of", "[P, [Q]]"),
+        ("tuple-of", "[P, (Q, 1)]"),
+        ("vec-of", "vec_push(P, Q)"),
+        ("ref-of", "ref_set(P, Q)"),
+        ("ref-literal", "[P, ref(Q)]"),
+        ("returns-itself", "[P, |z| Q]"),
+        ("generic-app", "[P, Som(Q)]"),
+        ("struct-app", "[P, Two { l: Q, r: Q }]"),
+        ("apply-twice", "P(Q)(Q)"),
+        ("if-join-container", "if true { P } else { [Q] }"),
+        ("generic-fn-same", "same(P, [Q])"),
+        ("curried", "[P, |z| |y| Q]"),
+    ];
+    const PRELUDE: &str = "enum Opt[T] { Non, Som(T) }\nstruct Two[T] { l: T, r: T }\nfn same[T](x: T, y: T) -> T { x }\n";
+    let na = ALIASES.len();
+    let nk = KNOTS.len();
+    let table = na * nk * 4;
+    let sub = |t: &str, x: &str, y: &str| t.replace('X', x).replace('Y', y);
+    if idx < table {
+        let (an, a) = ALIASES[idx % na];
+        let (kn, k) = KNOTS[(idx / na) % nk];
+        let variant = idx / (na * nk);
+        // which names play X/Y, and which of {a, b, K} are knotted
+        let (x, y) = if variant & 1 == 0 { ("a", "b") } else { ("b", "a") };
+        let (p, q) = if variant & 2 == 0 { ("a", "b") } else { ("k", "a") };
+        let alias = sub(a, x, y).replace('K', "k");
+        let knot = k.replace('P', p).replace('Q', q);
+        let src = format!("{}fn main() -> unit {{\n    let h = |a, b, c| {{\n        {}\n        {}\n    }};\n    ()\n}}\n", PRELUDE, alias, knot);
+        return (format!("{}+{}#{}", an, kn, variant), src);
+    }
+    // fixed shapes that need no alias, and random compositions
+    const FIXED: [&str; 10] = [
+        "fn main() -> unit { let f = |x| x(x); () }\n",
+        "fn main() -> unit { let r = ref(|x| x); let _ = ref_set(r, |y| ref_get(r)); () }\n",
+        "fn main() -> unit { let v = vec_new(); let w = vec_push(v, v); () }\n",
+        "fn main() -> unit { let f = |x| [x, [x]]; () }\n",
+        "fn main() -> unit { let f = |g| |x| g(g)(x); () }\n",
+        "fn main() -> unit { let f = |x| { let y = x; y(x) }; () }\n",
+        "fn main() -> unit { let r = ref(vec_new()); let _ = ref_set(r, vec_push(ref_get(r), r)); () }\n",
+        "fn main() -> unit { let f = |x, y| { let _ = [x, y]; let _ = [y, x]; x(y)(x) }; () }\n",
+        "fn fix(f: int32) -> int32 { f }\nfn main() -> unit { let om = |x| x(x); let _ = om(om); () }\n",
+        "fn main() -> unit { let t = |p| (p, p(p)); () }\n",
+    ];
+    if idx < table + FIXED.len() {
+        return (format!("fixed{}", idx - table), FIXED[idx - table].to_string());
+    }
+    let (an1, a1) = ALIASES[r.below(na)];
+    let (an2, a2) = ALIASES[r.below(na)];
+    let (kn, k) = KNOTS[r.below(nk)];
+    let names = ["a", "b", "c", "k", "k2"];
+    let al1 = sub(a1, "a", "b").replace('K', "k");
+    let al2 = sub(a2, if r.chance(1, 2) { "k" } else { "b" }, "c").replace('K', "k2").replace("let q", "let q2").replace("(q,", "(q2,").replace("(q)", "(q2)").replace("q.r", "q2.r").replace("let j", "let j2").replace("j(", "j2(").replace("let (u, w)", "let (u2, w2)").replace("[u, w]", "[u2, w2]").replace("= w;", "= w2;");
+    let p = names[r.below(5)];
+    let q = names[r.below(5)];
+    let knot = k.replace('P', p).replace('Q', q);
+    let wrapped = match r.below(4) {
+        0 => format!("if true {{ {} }} else {{ {} }}", knot, knot),
+        1 => format!("{{ let z9 = {}; z9 }}", knot).replace("{ let", "if true { let").replace("z9 }", "z9 } else { a }"),
+        2 => format!("match 1 {{ 0 => {}, _ => {}, }}", knot, knot),
+        _ => knot,
+    };
+    let src = format!("{}fn main() -> unit {{\n    let h = |a, b, c| {{\n        {}\n        {}\n        {}\n    }};\n    ()\n}}\n", PRELUDE, al1, al2, wrapped);
+    (format!("random:{}+{}+{}", an1, an2, kn), src)
 }
 
 /// nesting forms × depth (bounded at 200: "boundedly nested")
@@ -564,7 +661,16 @@ fn build_case(stream: &str, idx: usize, seed: u64, thorough: bool, corpus: &[(St
             let holes = g0.hole_count().max(1);
             let mut g = Gen::new(r.fork(1), main_features());
             g.ill_at = Some(1 + r.below(holes));
-            let p = g.program();
+            // a quarter of the ill-typed programs fail the occurs check somewhere inside
+            let mut prelude = "";
+            if r.chance(1, 4) {
+                let (_, whole) = occurs_case(r.below(16 * 14 * 4), &mut r);
+                if let (Some(a), Some(b)) = (whole.find("let h = "), whole.rfind("};")) {
+                    g.ill_snippet = Some(whole[a..b + 2].replace('\n', " "));
+                    prelude = "enum Opt[T] { Non, Som(T) }\nstruct Two[T] { l: T, r: T }\nfn same[T](x: T, y: T) -> T { x }\n";
+                }
+            }
+            let p = format!("{}{}", prelude, g.program());
             (format!("ill: {}", g.ill_done.clone().unwrap_or_else(|| "hole not reached".into())), Case::Text(p))
         }
         "fuel-ops" => {
@@ -589,6 +695,10 @@ fn build_case(stream: &str, idx: usize, seed: u64, thorough: bool, corpus: &[(St
                 });
             }
             ("ops".into(), Case::Ops { text: text.join(" "), ops })
+        }
+        "occurs" => {
+            let (tag, p) = occurs_case(idx, &mut r);
+            (tag, Case::Text(p))
         }
         "regress" => {
             let mut files: Vec<PathBuf> = std::fs::read_dir(util::verif_root().join("corpus/C04"))
@@ -862,6 +972,9 @@ fn run_text(w: &Watch, key: crash::Key, dir: &Path, src: &str, tally: &mut Tally
         }
         Guarded::Done(Err(e)) => {
             *tally.outcomes.entry(format!("compile:err:{}", stage_name(&e))).or_default() += 1;
+            if e.diagnostics().iter().any(|d| d.message().contains("occurs check")) {
+                *tally.outcomes.entry("compile:occurs-check-diagnostic".into()).or_default() += 1;
+            }
             check_err("compile", &e, Some(src), out);
             if let Guarded::Panic(p) = w.guarded(0, key, || match &e {
                 CompilationError::Parser { diagnostics } => parser::format_parser_diagnostics(diagnostics, src).len(),
@@ -1165,7 +1278,7 @@ fn child(args: &util::Args, stream: &str, from: usize, to: usize, outfile: &Path
         }
         {
             let outs: Vec<String> = tally.outcomes.iter().map(|(k, v)| format!("{}={}", k, v)).collect();
-            let keep_tag = stream == "gen-ok" || stream == "gen-ill" || stream == "nest" || stream == "layout" || stream.contains("artifact");
+            let keep_tag = stream == "occurs" || stream == "gen-ok" || stream == "gen-ill" || stream == "nest" || stream == "layout" || stream.contains("artifact");
             let _ = writeln!(f, "R\t{}\t{}\t{}\t{}", stream, idx, outs.join(" "), if keep_tag { esc_line(&tag) } else { String::new() });
             tally.outcomes.clear();
         }
